@@ -89,6 +89,18 @@ def rule_state(ctx, R):
         for a in t["args"]:
             if vars_.root_key(a) == sk and callee_name(t["f"], fb) != EXECUTE:
                 R.fail("state:other_use:%s" % callee_name(t["f"], fb), "the session state is handed to something other than execute(): %s" % callee_name(t["f"], fb), t["span"]["at"])
+    # no in-place mutation of the session state: it is never mutably borrowed or stored into field by field
+    # (everything that changes it is the by-value round trip through execute(), or a fresh UnOptState::new())
+    for bi, blk in enumerate(b.blocks):
+        if blk["cleanup"]:
+            continue
+        for s in blk["stmts"]:
+            if s["k"] != "assign":
+                continue
+            if s["r"]["k"] == "ref" and s["r"]["mut"] and s["r"]["p"]["l"] == sl:
+                R.fail("state:mut_borrow", "the session state is mutably borrowed (in-place modification instead of execute()'s result or a fresh state)", s["span"]["at"])
+            if s["p"]["l"] == sl and s["p"]["proj"]:
+                R.fail("state:field_store", "a field of the session state is overwritten in place", s["span"]["at"])
     # the `clear` arm is selected by comparing the trimmed line with "clear"
     consts = set()
     for bi, t in b.calls():
